@@ -47,6 +47,8 @@ type Obs struct {
 	SignedBy string   `json:"signed_by,omitempty"`
 	Verdict  string   `json:"verdict"` // "accepted" or "error"
 	Err      string   `json:"err,omitempty"`
+	Verdict2 string   `json:"verdict_merge,omitempty"` // reader "both": Verdict is bug.Read's, this one MergeAll's
+	Err2     string   `json:"err_merge,omitempty"`
 }
 
 type runner struct {
@@ -78,9 +80,26 @@ func (r *runner) Run(caseID string) Obs {
 	if err != nil {
 		return Obs{Harness: "reference: " + err.Error()}
 	}
-	obs := Obs{Expected: exp, SignedBy: b.SignedBy}
 	vctl.SetActor("reader")
-	switch c.Reader {
+	if c.Reader == "both" {
+		// classes the reference leaves open: both readers, one after the other, must agree
+		o1 := r.reader(dir, b, exp, "read")
+		if o1.Harness != "" {
+			return o1
+		}
+		o2 := r.reader(dir, b, exp, "merge")
+		if o2.Harness != "" {
+			return o2
+		}
+		o1.Verdict2, o1.Err2 = o2.Verdict, o2.Err
+		return o1
+	}
+	return r.reader(dir, b, exp, c.Reader)
+}
+
+func (r *runner) reader(dir string, b *Built, exp Expected, reader string) Obs {
+	obs := Obs{Expected: exp, SignedBy: b.SignedBy}
+	switch reader {
 	case "read":
 		repo, err := repository.OpenGoGitRepo(b.Dir, world.Namespace, nil)
 		if err != nil {
@@ -190,6 +209,9 @@ func signerClass(c Case) string {
 		return false
 	}
 	cur := sets[c.Pos.J]
+	if strings.HasPrefix(c.Signer, "raw:") {
+		return "raw-altered/" + strings.TrimPrefix(c.Signer, "raw:")
+	}
 	switch c.Signer {
 	case "in-force":
 		return "in-force-key"
@@ -306,6 +328,27 @@ func Evaluate(c Case, res subproc.Result) (f *Finding, obs Obs, harness string) 
 	if exp.Accept {
 		want = "accepted"
 	}
+	if strings.HasPrefix(c.Signer, "raw:") {
+		class := strings.TrimPrefix(c.Signer, "raw:")
+		where := ""
+		if c.Kind == "join" {
+			where = " commit=join(empty pack)"
+		}
+		detail := fmt.Sprintf("case %s: validly signed commit (key %s in force at logical time %d) rewritten as a raw object; the signature verifies over the commit as go-git decodes and re-encodes it: %v; git-bug: %s %s",
+			c.ID(), obs.SignedBy, exp.T, exp.Valid, obs.Verdict, obs.Err)
+		if c.Reader == "both" {
+			// the reference rule leaves these classes open: no crash, and both readers agree
+			if obs.Verdict != obs.Verdict2 {
+				return &Finding{"verdict", fmt.Sprintf("raw-altered/%s/readers-disagree(read=%s,merge=%s)%s", class, obs.Verdict, obs.Verdict2, where),
+					detail + "; MergeAll: " + obs.Verdict2 + " " + obs.Err2}, obs, ""
+			}
+			return nil, obs, ""
+		}
+		if obs.Verdict != want {
+			return &Finding{"verdict", fmt.Sprintf("raw-altered/%s/%s%s reader=%s (expected %s)", class, obs.Verdict, where, c.Reader, want), detail}, obs, ""
+		}
+		return nil, obs, ""
+	}
 	if obs.Verdict != want {
 		return &Finding{"verdict", fmt.Sprintf("%s: expected %s, observed %s", situation(c, &exp), want, obs.Verdict),
 			fmt.Sprintf("case %s: commit at logical time %d, version times %v, %d key(s) in force, signed=%v (by %s), signature valid under a key in force=%v; git-bug: %s %s",
@@ -367,6 +410,26 @@ func Main(args []string) {
 					cases = append(cases, Case{H: h, Pos: pos, Signer: signer, Reader: reader, Kind: "join"})
 				}
 			}
+			// a validly signed commit rewritten as a raw object (needs a key in force: other
+			// positions report "not applicable"); independent of the length of the history, so the
+			// quick tier takes histories of at most two changes
+			if tier != "thorough" && len(h) > 2 {
+				continue
+			}
+			for _, kind := range []string{"", "join"} {
+				for _, class := range RawAlterations {
+					if tier != "thorough" && kind == "join" && !strings.Contains(class, "parent") && !strings.Contains(class, "tree-after") {
+						continue // quick tier: the join commit takes the parent alterations (an operation commit with two parents is refused anyway) and one tree alteration
+					}
+					if RawUnsure(class) {
+						cases = append(cases, Case{H: h, Pos: pos, Signer: "raw:" + class, Reader: "both", Kind: kind})
+						continue
+					}
+					for _, reader := range []string{"read", "merge"} {
+						cases = append(cases, Case{H: h, Pos: pos, Signer: "raw:" + class, Reader: reader, Kind: kind})
+					}
+				}
+			}
 		}
 	}
 	budget := 170 * time.Second
@@ -384,9 +447,10 @@ func Main(args []string) {
 	var order []string
 	verdicts := map[string]int{}
 	bySigner := map[string]int{}
+	rawVerdicts := map[string]int{}
 	outcomes := map[string]bool{}
 	var samples []any
-	executed, skipped, crashes, harnessErrs, unspecified, joinCases := 0, 0, 0, 0, 0, 0
+	executed, skipped, crashes, harnessErrs, unspecified, joinCases, rawCases := 0, 0, 0, 0, 0, 0, 0
 	expAccept, expReject, boundary := 0, 0, 0
 	exhaustive := true
 	const batch = 2000
@@ -424,6 +488,16 @@ func Main(args []string) {
 			executed++
 			if c.Kind == "join" {
 				joinCases++
+			}
+			if strings.HasPrefix(c.Signer, "raw:") {
+				rawCases++
+				rv := obs.Verdict
+				if res.Crashed {
+					rv = "crash"
+				} else if c.Reader == "both" {
+					rv = "read=" + obs.Verdict + ",merge=" + obs.Verdict2
+				}
+				rawVerdicts[signerClass(c)+" -> "+rv]++
 			}
 			bySigner[signerClass(c)]++
 			v := obs.Verdict
@@ -509,6 +583,9 @@ func Main(args []string) {
 		"alphabet":            Alphabet,
 		"signers":             Signers,
 		"join_commit_signers": JoinSigners,
+		"raw_object_alterations": RawAlterations,
+		"raw_object_cases":    rawCases,
+		"raw_object_verdicts": rawVerdicts,
 		"join_commit_cases":   joinCases,
 		"not_applicable":      skipped,
 		"observed_verdicts":   verdicts,
@@ -527,6 +604,7 @@ func Main(args []string) {
 			"a key introduced by a version recorded at time T is in force for a commit at T (the statement's boundary), so an unsigned commit made at the logical time the key-adding version records is expected to be rejected",
 			"RSA keys are generated once and kept in harness/props/c08/testdata/keys.json; signatures embed the wall clock, so commit hashes differ between runs while verdicts do not",
 			"altered commits: the operation pack text (tree) or the parent list is changed after signing, the signature header is kept (written with go-git plumbing on the same directory)",
+			"raw-object alterations: the stored bytes of a validly signed commit are rewritten by hand through go-git's storer (headers added after/before the gpgsig block, the block moved, bytes appended to the message, a second gpgsig block); expected verdict = the signature verifies over the commit as go-git decodes and re-encodes it without signature, i.e. tree, parents, author, committer and message the reader uses must all be covered; for unknown headers and a moved gpgsig block only 'no crash' and 'bug.Read and MergeAll agree' are required",
 			"join commits are written with the exported calls operationPack.Write makes for merge() (StoreData, StoreTree, Increment, StoreSignedCommit/StoreCommit): two parents (two concurrent commits of a key-less second author), pack {author, ops:null} in the name of the identity under test",
 			fmt.Sprintf("bounded: keys {K1,K2} plus a stranger's K3, at most %d identity changes, one tested commit per case", *maxLen),
 		},
